@@ -53,7 +53,7 @@ CLAIMED.update({
         text=("Theorems (under the reachable-state invariant): for a granted caller and existing secret, conditional get with V is not-modified iff active = V; otherwise "
               "the active version with its bytes is returned; V = 0 always returns the active value; absent -> not-found, no grant -> denied; the file client's table lookup "
               "satisfies the same iff. Tie: histories of put/activate/delete interleaved with conditional gets carrying current/older/newer/deleted/0 versions at the DB API "
-              "(HTTP and client legs are added with C08)."),
+              "(HTTP and client legs are added with C08); plus concurrent histories under the race detector with the schedule-independent monitor that a conditional get naming V never receives version V."),
         note=DBNOTE, technique="Lean 4 theorems over the DB step normal form + differential histories", design="8/C09"),
 })
 
@@ -65,8 +65,10 @@ CLAIMED.update({
               "version). Layout facts (schema version, the version open accepts, AEAD context strings, struct field lists) are extracted from kv.go on every run. Tie: "
               "after every step of generated histories the file is copied, reopened with db.Open, compared and probed for the next version; Open must leave the bytes "
               "unchanged; the harness decrypts the file with the documented v1 layout independently of package db; three golden schema-v1 files with their keys must open "
-              "to their recorded contents."),
-        note=DBNOTE + " JSON/base64 text layer trusted (exercised through the golden files and the independent reader).",
+              "to their recorded contents. Text layer: the clear document as text (names and version keys as JSON strings, values as base64, counters) is modelled as renderer + reader "
+              "(Model/DBText) with readTree (renderTree t) = some t for every tree and decodeText (renderTree (encode m)) = some m; the renderer is compared byte for byte with the decrypted file "
+              "after every step of the persist profile. Save failures followed by a retry of the same call are part of that profile (monitor acknowledged_survives)."),
+        note=DBNOTE + " encoding/json's decoding of arbitrary input is trusted (the model's reader accepts exactly the layout the code writes); base64 and string escaping are modelled.",
         technique="Lean 4 theorems (induction over histories; codec round-trip; symbolic AEAD) + extracted layout facts + reopen-after-every-step and golden-file correspondence",
         design="8/C03"),
     "C04": dict(
@@ -110,8 +112,9 @@ CLAIMED.update({
               "restart serves the same bytes (codec + sealed-file round-trip over a synced state); the CLI text policy is a total decision function: binary input verbatim, clean text "
               "verbatim, spaced text verbatim under --verbatim (which wins), trimmed under --trim-space, refused with neither, empty refused unless --empty-ok; whatever is sent is "
               "the input or its trimmed form. Tie: the real setec binary (all flag combinations, file and pipe) against a local server whose database is inspected and whose "
-              "/api/put counter detects contact; byte strings of every class and size through every retrieval path incl. cache, file client and server restart."),
-        note=COMMON_NOTE + "encoding/base64 and encoding/json text layers, utf8.Valid and bytes.TrimSpace are trusted (exercised, not modelled).",
+              "/api/put counter detects contact; byte strings of every class and size through every retrieval path incl. cache, file client and server restart, every other one stored after a near-duplicate of itself. "
+              "Text layers: base64 (decode (encode b) = some b), the cache document and the database's clear document are modelled with round-trip theorems for all byte strings and tied byte for byte."),
+        note=COMMON_NOTE + "encoding/json decoding of arbitrary input, the API's wire bodies, utf8.Valid and bytes.TrimSpace are trusted (exercised, not modelled).",
         technique="Lean 4 theorems (decision logic of the put policy; byte preservation through model layers) + differential runs of the real binary and all retrieval paths",
         design="8/C18"),
 })
@@ -142,7 +145,8 @@ CLAIMED.update({
               "restart with a dead service serves the same bytes; lookup and any non-empty apply flush; a malformed/absent cache loads as empty and every declared name is then "
               "stubbed for fetching; the file-backed client's table accepts every non-empty positive-version entry unchanged; FileCache.Write is the atomic write protocol of C04 with "
               "mode 0600 (fact + Fs theorems). Tie: recording cache (every written document decoded and compared), restarts from the store's own cache with live/dead service, 16 "
-              "malformed cache shapes + failing Read/Write, FileClient on the same documents, and FileCache.Write in a child under strace with every call failed / killed."),
+              "malformed cache shapes + failing Read/Write, FileClient on the same documents, and FileCache.Write in a child under strace with every call failed / killed. Text layer: the cache document as bytes "
+              "(Model/CacheDoc: names as JSON strings, base64 values, quoted access time) with readDoc (renderDoc d) = some d for every document, compared byte for byte with every document the store hands to Cache.Write."),
         note=STORENOTE + " Kernel rename atomicity trusted (as C04).",
         technique="Lean 4 theorems (extensional map lemmas for the codec round-trip; Fs prefix induction) + malformed-cache stream and strace fault enumeration as correspondence",
         design="8/C13"),
@@ -202,7 +206,8 @@ CLAIMED.update({
               "progress has read the newest install or a notification is pending again; a Get after the last install returns a value built from the newest bytes, clears Err, closes exactly "
               "the replaced value; without a pending notification Get changes nothing and a notification is pending only after an install; a failed build keeps value and identity and sets "
               "Err; closed identities are pairwise distinct and never include the current value. Tie: 1-4 updaters with counting closers, scripted builder failures, updaters created between a "
-              "poll's fetch and apply, compared per Get with the model."),
+              "poll's fetch and apply, compared per Get with the model; under the race detector, a builder held inside one Get while two installs and two more Gets arrive (next Get sees the newest, no lost update, current never closed, "
+              "replaced closed once); fact theorem: Updater.Get is lock / deferred unlock / build with no unlock in between."),
         note=STORENOTE, technique="Lean 4 theorem (inductive invariant over all event sequences of a small-step model) + differential histories", design="8/C15"),
 })
 
@@ -212,7 +217,7 @@ CLAIMED.update({
               "secret, close): every name with a handle stays in the active set with a value and keeps its handle (a read cannot fault, expiry never removes it, Close changes nothing "
               "that a read depends on); a read returns exactly the bytes currently installed for its name; the read after an apply sees the applied bytes; every value held after a poll "
               "was held before or is the service's answer for that very name (C11.served_inv). Requests to the service are oracle inputs, never part of a step, so no step waits for "
-              "the network. Not proved, observed under the race detector: that the code's critical sections are these steps, that reads keep completing while requests are held "
+              "the network; that the code agrees is a fact theorem over the extracted lock tokens of every function of the client store (no request or single-flight call while active is held; the handle is one critical section). Not proved, observed under the race detector: that the code's critical sections are these steps, that reads keep completing while requests are held "
               "blocked, per-reader monotonicity on real schedules, and the absence of data races."),
         note=STORENOTE + " Data-race freedom and non-blocking are runtime facts sampled by the harness.",
         technique="Lean 4 theorems (handle invariant preserved by every atomic step, by induction over step sequences) + concurrent readers under the Go race detector",
